@@ -517,6 +517,14 @@ def deck():
         cell("set_card/prop/invalid", ["set_card", P, "val_cardinality", enc((1, 2))],
              ["set_card", P, "val_cardinality", enc(bad)])
         cell("set_card/sec-props/invalid", ["set_card", A, "prop_cardinality", enc(bad)])
+    for exact in ((1, 1), (2, 2), (3, 3), (0, 1), (1, 2)):
+        # valid cardinalities, "exactly n" in particular, whether met or not by the present children / values
+        cell("set_card/sec/valid", ["set_card", A, "sec_cardinality", enc(exact)])
+        cell("set_card/sec-props/valid", ["set_card", A, "prop_cardinality", enc(exact)])
+        cell("set_card/prop/valid", ["set_card", P, "val_cardinality", enc(exact)], ["set_values", P, enc([4, 5])])
+        cell("set_card2/valid", ["set_card2", A, "set_sections_cardinality", exact[0], exact[1]],
+             ["set_card2", A, "set_properties_cardinality", exact[0], exact[1]],
+             ["set_card2", P, "set_values_cardinality", exact[0], exact[1]])
     cell("set_card2/invalid", ["set_card2", A, "set_sections_cardinality", 3, 1],
          ["set_card2", A, "set_properties_cardinality", -1, None],
          ["set_card2", P, "set_values_cardinality", 2, 1])
@@ -771,7 +779,7 @@ def rand_struct_op(rng, world, failing=0.3):
         if o is None:
             return ["doc"]
         ck = rng.choice(["sec_cardinality", "prop_cardinality"]) if world.kind(o) == "sec" else "val_cardinality"
-        return ["set_card", o, ck, enc(rng.choice([None, 2, (1, 2), (None, 3), (2, None), "bad", (3, 1), -1, (0, 0), ("1", "2"), (None, "2"), ["1", "3"], (1, "2"), ("", 2)]))]
+        return ["set_card", o, ck, enc(rng.choice([None, 2, (1, 2), (None, 3), (2, None), (1, 1), (2, 2), "bad", (3, 1), -1, (0, 0), ("1", "2"), (None, "2"), ["1", "3"], (1, "2"), ("", 2)]))]
     return ["finalize", rng.choice(docs)] if docs and rng.random() < 0.5 else ["clean", rng.choice(conts)]
 
 
